@@ -63,6 +63,9 @@ def make_plan(seed: int, tier: str) -> dict:
     return {"seed": seed, "tier": tier, "engine": "fitsim_c10", "world": cfg}
 
 
+EPS32 = float(np.finfo(np.float32).eps)
+
+
 def wv(t):
     return t.weighted_value if hasattr(t, "weight") else t
 
@@ -82,6 +85,17 @@ class C10Monitor(fitsim.Monitor):
         d = {"model": wv(s["model"]).clone(), "nll_attach_ind": wv(s["nll_attach_ind"]).clone(), "xi": s["xi"].clone()}
         if self.info["event"]:
             d["nll_attach_event_ind"] = wv(s["nll_attach_event_ind"]).clone()
+        # conditioning of the curve's argument: the invariant product v0 * exp(xi) (t - tau) is rounded in float32, so the model may move
+        # by ~ eps32 * |metric * v0 * rt| * max slope (extreme states after tail proposals / random initial parameters)
+        try:
+            rt = wv(s["rt"]).double().abs()
+            v0 = s["v0"].double().abs()
+            arg = (rt.unsqueeze(-1) if rt.ndim == 2 else rt) * v0
+            if "metric" in s.dag and self.info["family"] != "linear":
+                arg = arg * s["metric"].double().abs() * 0.25
+            d["model_cond"] = float(arg[torch.isfinite(arg)].max()) if torch.isfinite(arg).any() else 0.0
+        except Exception:
+            d["model_cond"] = 0.0
         return d
 
     def before_center(self, w, k):
@@ -103,7 +117,10 @@ class C10Monitor(fitsim.Monitor):
             x, y = b[key].double(), a[key].double()
             fin = torch.isfinite(x) & torch.isfinite(y)
             scale = float(x[fin].abs().max()) if fin.any() else 1.0
-            if x.shape != y.shape or not torch.allclose(x[fin], y[fin], rtol=3e-4, atol=5e-5 * max(1.0, scale)) or not torch.equal(torch.isfinite(x), torch.isfinite(y)):
+            extra = 16 * EPS32 * max(b.get("model_cond", 0.0), a.get("model_cond", 0.0)) if key == "model" else 0.0
+            if extra > 5e-5:
+                C["probe.gauge_tolerance_widened_by_conditioning"] += 1
+            if x.shape != y.shape or not torch.allclose(x[fin], y[fin], rtol=3e-4, atol=5e-5 * max(1.0, scale) + extra) or not torch.equal(torch.isfinite(x), torch.isfinite(y)):
                 d = float((x[fin] - y[fin]).abs().max()) if fin.any() else float("nan")
                 violation(out, "gauge_invariance", f"{key}_changed_by_recentring:{self.info['family']}", f"{where}: max |delta| = {d:.3g} (mean xi removed = {shift:.4g})")
         m = float(a["xi"].mean())
